@@ -78,6 +78,11 @@ func init() {
 			st.Bounds = fmt.Sprintf("4-symbol alphabet, length<=%d, levels -1..12, gzip+br", maxLen)
 			alpha := []byte{0, 'a', 'b', 0xff}
 			var idx int64
+			type kept struct {
+				in, out []byte
+				enc     string
+			}
+			var prev []kept // outputs of the previous input: must stay valid after later encoder calls
 			var gen func(cur []byte)
 			gen = func(cur []byte) {
 				idx++
@@ -105,6 +110,21 @@ func init() {
 							dec2, err := srv.Decompress(enc, out)
 							if err != nil || !bytes.Equal(dec2, cur) {
 								c.Violation("all-strings", "stream-not-restored-by-pike-decoder-"+enc, fmt.Sprintf("input %x level %d: pike decoder gives %x err %v", cur, lvl, dec2, err), nil, kase, nil)
+							}
+							if lvl == 6 {
+								// a result handed out earlier must not change when the same encoder is used again
+								// (13 further calls have happened since the previous input's level-6 result)
+								var keep []kept
+								for _, k := range prev {
+									if k.enc != enc {
+										keep = append(keep, k)
+										continue
+									}
+									if d, err := refDecode(k.enc, k.out); err != nil || !bytes.Equal(d, k.in) {
+										c.Violation("all-strings", "earlier-result-overwritten-"+k.enc, fmt.Sprintf("the %s stream returned for %x no longer decodes to it after later encoder calls (err %v)", k.enc, k.in, err), nil, kase, nil)
+									}
+								}
+								prev = append(keep, kept{append([]byte(nil), cur...), out, enc})
 							}
 						}
 					}
@@ -164,6 +184,22 @@ func init() {
 							}
 							c.Violation("families", sig, fmt.Sprintf("%s len %d (stream %d bytes, ratio %.1f): err %v, got %d bytes", name, n, len(stream), float64(n)/float64(len(stream)+1), err, len(out)), nil, kase, nil)
 						}
+					}
+				}
+			}
+			// concatenated members/frames are valid streams of gzip and zstd
+			for _, enc := range []string{"gzip", "zst"} {
+				for _, pair := range [][2]int{{0, 5}, {5, 0}, {100, 900}, {4096, 17}, {1, 1}} {
+					a, b := family(pair[0])["text"], family(pair[1])["lcg"]
+					stream := append(append([]byte(nil), refEncode(enc, a)...), refEncode(enc, b)...)
+					want := append(append([]byte(nil), a...), b...)
+					if ref, err := refDecode(enc, stream); err != nil || !bytes.Equal(ref, want) {
+						continue
+					}
+					st.Execs++
+					out, err, pan, hung := guarded(func() ([]byte, error) { return srv.Decompress(enc, stream) })
+					if pan != "" || hung || err != nil || !bytes.Equal(out, want) {
+						c.Violation("families", "multi-member-stream-not-restored-"+enc, fmt.Sprintf("two concatenated %s members (%d+%d bytes): pike restored %d bytes, err %v %s", enc, pair[0], pair[1], len(out), err, pan), nil, map[string]interface{}{"enc": enc, "members": pair}, nil)
 					}
 				}
 			}
